@@ -1230,13 +1230,14 @@ MANIFEST = {
                   'streams (any members, spellings, filter chains, predictors), Length direct or by reference (eager and deferred), junk before '
                   'the header, any object order / sectioning / end-of-lines -- to exactly the objects (by value), trailer and version it defines; '
                   'files of several sections linked by Prev (ref_write_multi: objects listed again, superseded definitions): Prev loop and '
-                  'merge proved format-independently; C02_loads_multi_mixed: every such file whose parts end with a cross-reference TABLE or an '
-                  'unfiltered cross-reference STREAM (mixed chains) loads to exactly the objects the document defines (by value) plus the '
-                  'cross-reference stream objects, the superseded bodies are not delivered; filtered cross-reference streams and object '
-                  'streams across parts checked by correspondence against an independent reference writer extracted from Coq',
-    'level_note': 'partial only in: files of several cross-reference sections whose parts carry a FILTER on the cross-reference stream, object '
-                  'streams, or a Length reference (C02_loads_multi_partial stays a Definition for the whole style space; tables and unfiltered '
-                  'streams incl. mixed chains are the theorem C02_loads_multi_mixed, the format-independent half is proved for all); open findings C02-raw-eol (raw CR in literal strings) and C02-deep-parens (nesting above '
+                  'merge proved format-independently; C02_loads_multi_mixed: every such file whose parts end with a cross-reference TABLE or a '
+                  'cross-reference STREAM (any W / Index / filter chain; mixed chains; Length direct or a reference into any part) loads '
+                  'to exactly the objects the document defines (by value) plus the cross-reference stream objects, and to its trailer '
+                  'entries; the superseded bodies are not delivered; object streams across parts checked by correspondence against an '
+                  'independent reference writer extracted from Coq',
+    'level_note': 'partial only in: files of several cross-reference sections that also hold OBJECT STREAMS (C02_loads_multi_partial stays a '
+                  'Definition for the whole style space; every other multi-section file of the reference writer is covered by the theorem '
+                  'C02_loads_multi_mixed, the format-independent half is proved for all); open findings C02-raw-eol (raw CR in literal strings) and C02-deep-parens (nesting above '
                   '100) are excluded by decidable classes on the input',
     'technique': 'Coq proofs over Gallina models of xref.rs / parser_aux.rs / object_stream.rs / the xref table parser / the token '
                  'parsers; differential check of the models on valid and malformed inputs; reference PDF writer in Gallina '
